@@ -5,6 +5,7 @@ import (
 	"fmt"
 	"github.com/fabiolb/fabio/transport"
 	"log"
+	"math"
 	"net/url"
 	"reflect"
 	"sort"
@@ -218,11 +219,24 @@ const maxSlots = 1e4 // 10000
 func (r *Route) weighTargets() {
 	// how big is the fixed weighted traffic?
 	var nFixed int
-	var sumFixed float64
+	var sumFixed, maxFixed float64
 	for _, t := range r.Targets {
 		if t.FixedWeight > 0 {
 			nFixed++
 			sumFixed += t.FixedWeight
+			maxFixed = math.Max(maxFixed, t.FixedWeight)
+		}
+	}
+
+	// if the sum of very large weights overflows then sum them relative to the
+	// largest one. The sum is then >= 1 so that the weights get normalized.
+	unit := 1.0
+	if math.IsInf(sumFixed, 1) {
+		unit, sumFixed = maxFixed, 0
+		for _, t := range r.Targets {
+			if t.FixedWeight > 0 {
+				sumFixed += t.FixedWeight / unit
+			}
 		}
 	}
 
@@ -237,10 +251,13 @@ func (r *Route) weighTargets() {
 		return
 	}
 
-	// normalize fixed weights up (sumFixed < 1) or down (sumFixed > 1)
-	scale := 1.0
+	// normalize fixed weights up (sumFixed < 1) or down (sumFixed > 1).
+	// Dividing by the sum instead of multiplying with its reciprocal keeps
+	// the weights within [0,1] even if the sum is so small that 1/sumFixed
+	// overflows.
+	norm := 1.0
 	if sumFixed > 1 || (nFixed == len(r.Targets) && sumFixed < 1) {
-		scale = 1 / sumFixed
+		norm = sumFixed
 	}
 
 	// compute the weight for the targets with dynamic weights
@@ -252,7 +269,7 @@ func (r *Route) weighTargets() {
 	// assign the actual weight to each target
 	for _, t := range r.Targets {
 		if t.FixedWeight > 0 {
-			t.Weight = t.FixedWeight * scale
+			t.Weight = t.FixedWeight / unit / norm
 		} else {
 			t.Weight = dynamic
 		}
